@@ -43,11 +43,21 @@ func (in *interp) call(name string, args []ast.Arg, cur jv.Val, sc *scope, pdept
 	in.ev.FuncCalls++
 	sig := Sigs[name]
 	vals := make([]jv.Val, len(args))
+	argFailed := make([]bool, len(args))
 	for i, a := range args {
 		if sig.IsRef(i) {
 			continue
 		}
+		before := in.f
+		in.f = fault{}
 		vals[i] = in.eval(a.X, cur, sc, pdepth)
+		argFailed[i] = in.failed()
+		mine := in.f
+		in.f = before
+		in.f.err |= mine.err
+		if in.f.undet == "" {
+			in.f.undet = mine.undet
+		}
 		if name == "not_null" && !in.failed() && vals[i].K != jv.Null {
 			// whether the remaining arguments are evaluated at all (and may
 			// fail) once a non-null one is found is not pinned
@@ -62,20 +72,21 @@ func (in *interp) call(name string, args []ast.Arg, cur jv.Val, sc *scope, pdept
 			return vals[i]
 		}
 	}
-	if in.failed() {
-		if len(args) >= 2 && in.f.undet == "" {
-			// an argument failed; an implementation may validate the other
-			// arguments first (or evaluate them lazily), so a type or value
-			// fault of another argument may be reported instead
-			in.f.err |= InvType | InvValue
-		}
-		return jv.VNull()
-	}
 	apply := func(i int) func(jv.Val) jv.Val {
 		return func(x jv.Val) jv.Val {
 			in.ev.ExprRefCalls++
 			return in.move(func() jv.Val { return in.eval(args[i].X, x, sc, pdepth) })
 		}
+	}
+	if in.failed() {
+		if len(args) >= 2 && in.f.undet == "" && in.othersMayFail(name, vals, argFailed, apply) {
+			// an argument failed; an implementation may validate the other
+			// arguments first (or evaluate them lazily), so a type or value
+			// fault of another argument may be reported instead -- when the
+			// other arguments have one
+			in.f.err |= InvType | InvValue
+		}
+		return jv.VNull()
 	}
 	v := in.builtin(name, vals, apply)
 	if in.failed() {
@@ -92,6 +103,39 @@ func (in *interp) call(name string, args []ast.Arg, cur jv.Val, sc *scope, pdept
 		return jv.VNull()
 	}
 	return v
+}
+
+// argProbes stand in for an argument whose evaluation failed.
+var argProbes = []string{`null`, `true`, `0`, `1`, `""`, `"a"`, `[]`, `[1]`, `["a"]`, `{}`, `{"a":1}`}
+
+// othersMayFail: some argument failed; do the remaining arguments have a
+// fault of their own? They do not if the call succeeds for some value put in
+// place of the failed argument.
+func (in *interp) othersMayFail(name string, vals []jv.Val, argFailed []bool, apply func(int) func(jv.Val) jv.Val) bool {
+	at := -1
+	for i, f := range argFailed {
+		if f {
+			if at >= 0 {
+				return true // several failed arguments: not tracked
+			}
+			at = i
+		}
+	}
+	if at < 0 {
+		return true
+	}
+	saved, savedEv := in.f, *in.ev
+	defer func() { in.f, *in.ev = saved, savedEv }()
+	for _, p := range argProbes {
+		probe := append([]jv.Val{}, vals...)
+		probe[at] = jv.MustParseJSON(p)
+		in.f = fault{}
+		in.builtin(name, probe, apply)
+		if !in.failed() {
+			return false
+		}
+	}
+	return true
 }
 
 func allKind(a []jv.Val, k jv.Kind) bool {
